@@ -90,7 +90,8 @@ fn consume(src: &Vec<char>, start: usize, line: u32, src_file_path: String) -> R
 
     match src[start] {
         '-'|'০'|'১'|'২'|'৩'|'৪'|'৫'|'৬'|'৭'|'৮'|'৯' => {
-            if src[start+1].is_numeric() || src[start].is_numeric() {
+            let next_is_numeric = src.get(start+1).map_or(false, |c| c.is_numeric());
+            if src[start].is_numeric() || next_is_numeric {
                 // negative number, unary '-' operator
                 let (val, consumed) = consume_num(src, start, line, &src_file_path)?;
 
@@ -105,7 +106,7 @@ fn consume(src: &Vec<char>, start: usize, line: u32, src_file_path: String) -> R
             } else {
                 // not a negative number, binary '-' operator or map operator '->' in record
 
-                if src[start+1] == '>' {
+                if src.get(start+1) == Some(&'>') {
                     // map operator '->' in record
                     consumed_char = 2;
                     consumed_line = 0;
@@ -189,7 +190,7 @@ fn consume(src: &Vec<char>, start: usize, line: u32, src_file_path: String) -> R
             }
         },
         '!' => {
-            if start < src.len() && src[start+1] == '=' {
+            if src.get(start+1) == Some(&'=') {
                 consumed_char = 2;
                 consumed_line = 0;
                 token = Token {
@@ -324,7 +325,7 @@ fn consume(src: &Vec<char>, start: usize, line: u32, src_file_path: String) -> R
             }
         },
         '=' => {
-            if start < src.len() && src[start+1] == '=' {
+            if src.get(start+1) == Some(&'=') {
                 consumed_char = 2;
                 consumed_line = 0;
                 token = Token {
@@ -345,7 +346,7 @@ fn consume(src: &Vec<char>, start: usize, line: u32, src_file_path: String) -> R
             }
         },
         '<' => {
-            if start < src.len() && src[start+1] == '=' {
+            if src.get(start+1) == Some(&'=') {
                 consumed_char = 2;
                 consumed_line = 0;
                 token = Token {
@@ -366,7 +367,7 @@ fn consume(src: &Vec<char>, start: usize, line: u32, src_file_path: String) -> R
             }
         },
         '>' => {
-            if start < src.len() && src[start+1] == '=' {
+            if src.get(start+1) == Some(&'=') {
                 consumed_char = 2;
                 consumed_line = 0;
                 token = Token {
